@@ -63,7 +63,10 @@ pub fn run_check(ctx: &Ctx) -> Outcome {
             check_e1(ctx, Prop::C10, &mut out, 12000, 250000);
             check_e2(ctx, Prop::C10, &[Kind::Wtl], &mut out);
         }
-        "C12" => check_e1(ctx, Prop::C12, &mut out, 12000, 250000),
+        "C12" => {
+            check_e1(ctx, Prop::C12, &mut out, 12000, 250000);
+            check_putresult_laws(ctx, &mut out);
+        }
         "C14" => check_e1(ctx, Prop::C14, &mut out, 6000, 100000),
         "C15" => check_e1(ctx, Prop::C15, &mut out, 12000, 250000),
         "C11" => {
@@ -91,6 +94,12 @@ pub fn replay(prop: &str, engine: &str, case: &Value) -> Result<Option<Violation
             let p = prop_of(prop).ok_or_else(|| format!("unknown property {prop}"))?;
             let c: Case = serde_json::from_value(case.clone()).map_err(|e| e.to_string())?;
             Ok(exec_case(&c, p).violation)
+        }
+        "putresult" => {
+            let ctx = Ctx { id: "C12".into(), tier: Tier::Quick, seed: 1, verif_dir: std::env::var("VERIF_DIR").unwrap_or_else(|_| "/verif".into()), known: Default::default(), workers: 1, scale: 1.0 };
+            let mut o = Outcome::default();
+            check_putresult_laws(&ctx, &mut o);
+            Ok(o.violations.first().map(|(_, m)| Violation { prop: "C12", step: 0, msg: m.clone(), sig: "putresult/-/law".into() }))
         }
         "e5" => {
             // the replay of a compiler verdict is the whole (deterministic) program sweep
